@@ -209,51 +209,40 @@ Theorem simulate_snapshot (st : store) (h : history) q i n p :
 Proof. apply result_snapshot; [reflexivity | apply simulate_not_sm]. Qed.
 
 (* ---- in place vs out of place ---- *)
-(* a differentiable operator (T, E, P, R, S, ScalarOp, MatrixOp): one semantics, [dstep] *)
-Theorem inplace_equals_outofplace_diffop (o : dop S) (vs : value) :
-  apply_value (VOp (DOp o)) vs true = apply_value (VOp (DOp o)) vs false.
-Proof. destruct vs; reflexivity. Qed.
+(* one semantics for both modes, for every operator (differentiable, plain, MultiOperator) and every state
+   matrix, partials included (plain operators: since /repo 8521bf9) *)
+Theorem inplace_equals_outofplace (vo vs : value) :
+  apply_value vo vs true = apply_value vo vs false.
+Proof. destruct vo; try reflexivity; destruct vs; reflexivity. Qed.
 
-Lemma drop_partials_id (d : dstate S) : d_p1 d = [] -> d_p2 d = [] -> drop_partials d = d.
-Proof. destruct d; simpl; intros -> ->; reflexivity. Qed.
-
-(* any operator, on a state matrix that carries no partials *)
-Theorem inplace_equals_outofplace_nopartials (vo : value) (s : smval S) :
-  d_p1 (sv_d s) = [] -> d_p2 (sv_d s) = [] ->
-  apply_value vo (VSm s) true = apply_value vo (VSm s) false.
+Lemma with_nmax_plain n (p : op S) : exists q, with_nmax n (DPlain p) = DPlain q /\ (n = None -> q = p).
 Proof.
-  intros H1 H2. destruct vo; try reflexivity; simpl.
-  - destruct i; [reflexivity|]. unfold apply_in, apply_out. now rewrite drop_partials_id.
-  - unfold multi_in, multi_out. now rewrite H1, H2.
+  destruct n as [m|]; simpl.
+  - destruct p; eexists; (split; [reflexivity | discriminate]).
+  - exists p. split; auto.
 Qed.
 
-(* any operator, any state matrix: the zeroth-order state never depends on the mode *)
-Definition main_of (v : value) : option (sm S) :=
-  match v with VSm s => Some (d_main (sv_d s)) | _ => None end.
-Theorem inplace_equals_outofplace_main (vo vs : value) :
-  main_of (apply_value vo vs true) = main_of (apply_value vo vs false).
+(* out-of-place application of a non-differentiable operator: the input entry (state AND partials) is preserved,
+   and the result carries the transformed state together with every partial of the input, each transformed by
+   the operator (Diff.apply_partial); nothing is dropped *)
+Theorem plain_outofplace_keeps_partials (st : store) (o s : nat) (p : op S) (sv : smval S) :
+  look st o = VOp (DPlain p) -> look st s = VSm sv -> s < length st ->
+  look (fst (sem st (CApply o s false))) s = VSm sv /\
+  exists q, (sv_nmax sv = None -> q = p) /\
+    snd (sem st (CApply o s false)) =
+    VSm (mkSmv (mkD (apply q (d_main (sv_d sv))) (map_partials q (d_p1 (sv_d sv))) (map_partials q (d_p2 (sv_d sv)))
+                    (d_ok (sv_d sv))) (sv_nmax sv)) /\
+    length (map_partials q (d_p1 (sv_d sv))) = length (d_p1 (sv_d sv)) /\
+    length (map_partials q (d_p2 (sv_d sv))) = length (d_p2 (sv_d sv)).
 Proof.
-  destruct vo; try reflexivity; destruct vs; try reflexivity; simpl.
-  - destruct i; [reflexivity|]. unfold apply_in, apply_out.
-    destruct (with_nmax (sv_nmax s) (DPlain o)); reflexivity.
+  intros Ho Hs Hlt. split.
+  - rewrite store_monotone_step; auto.
+  - destruct (with_nmax_plain (sv_nmax sv) p) as [q [Hq Hn]]. exists q. split; [exact Hn|]. split.
+    + rewrite sem_result. unfold result. simpl. rewrite Ho, Hs. simpl. unfold apply_out. rewrite Hq. reflexivity.
+    + unfold map_partials. rewrite !map_length. split; reflexivity.
 Qed.
 
 End PurityProofs.
-
-(* the full statement "in place = out of place" is FALSE for the code that exists: a non-differentiable
-   operator applied out of place returns a state matrix WITHOUT the partials of its input
-   (Operator.prepare -> StateMatrix.copy has no order1/order2), in place it keeps them (untouched).
-   Witness over the executable instance: SPOILER on a state carrying one first-order partial. *)
-Definition wit_sm : sm QIops := init k1.
-Definition wit_val : value QIops := VSm (mkSmv (mkD wit_sm [(0%nat, wit_sm)] [] true) None).
-Definition npartials (v : value QIops) : nat :=
-  match v with VSm s => length (d_p1 (sv_d s)) | _ => 0 end.
-Theorem inplace_equals_outofplace_refuted :
-  exists (vo vs : value QIops), apply_value vo vs true <> apply_value vo vs false.
-Proof.
-  exists (VOp (DPlain OSpoil)), wit_val. intro H. apply (f_equal npartials) in H.
-  vm_compute in H. discriminate H.
-Qed.
 
 (* non-vacuity: a small history evaluates, the repeated simulate gives the same non-trivial value *)
 Definition ex_rot : mat3 QIops :=
